@@ -258,7 +258,7 @@ def c01_extras(tier, rnd):
     vals = [S("a"), NONE] if q else [S("a"), NONE, I(7), SEQ([S("a")])]
     exc = [EXC("ZeroDivisionError"), EXC("KeyError")]
     # attrs
-    for where in ("content", "text", "define", "cond", "attr", "nested", "missing", "missing-pipe", "repeat", "fallback"):
+    for where in ("content", "text", "define", "cond", "attr", "nested", "missing", "missing-pipe", "repeat", "fallback", "count"):
         for outer_attrs in ((), ("title",)):
             al = Alloc("quick")
             items = [Text("pre\n "), Open(sattr=list(outer_attrs) + ["lang"], name="section"), Text("\n  ")]
@@ -281,6 +281,10 @@ def c01_extras(tier, rnd):
                 items += [Open(sattr=["class"]), Text("t", pipe(attrsx("nope"), attrsx("class"))), CLOSE]
             elif where == "repeat":
                 items += [Open(sattr=["class"], rep=(False, "x", al.call("repeat"))), Text("t", attrsx("class"), var("x")), CLOSE]
+            elif where == "count":
+                # how many there are: the element's own statements and namespace declarations are not among them
+                items += [Open(sattr=["class", "id"], define=[(False, "x", attrslen())], sub=("content", False, attrslen())), Text("old"), CLOSE,
+                          Open(sattr=[], cond=al.call("cond", [B(True)])), Text("n", attrslen()), CLOSE, Text("o", attrslen())]
             elif where == "fallback":
                 # the on-error expression is evaluated outside the element's own definitions
                 items += [Open(sattr=["class", "lang"], oe=(False, attrsx("lang"))), Text("t", al.call("content", [S("a"), EXC("ZeroDivisionError")])), CLOSE]
